@@ -848,10 +848,14 @@ func boundsPredicate(k *kind, mn, mx parquet.Value, has bool, vals []parquet.Val
 		if k.Typ.Compare(v, mx) > 0 {
 			return fmt.Sprintf("max %s is below the value %s", k.show(mx), k.show(v))
 		}
-		if bytes.Equal(v.Bytes(), mn.Bytes()) {
+		// a zero bound of a FLOAT / DOUBLE unit stands for the zeros of both signs (the format
+		// recommends -0 as a zero minimum and +0 as a zero maximum; repair 3cd122f): it is a
+		// value of the unit when the unit holds a zero
+		floatKind := k.Typ.Kind() == parquet.Float || k.Typ.Kind() == parquet.Double
+		if bytes.Equal(v.Bytes(), mn.Bytes()) || (floatKind && k.Typ.Compare(v, mn) == 0) {
 			minHit = true
 		}
-		if bytes.Equal(v.Bytes(), mx.Bytes()) {
+		if bytes.Equal(v.Bytes(), mx.Bytes()) || (floatKind && k.Typ.Compare(v, mx) == 0) {
 			maxHit = true
 		}
 	}
